@@ -62,53 +62,74 @@ func (c *Check) nodeSelectionKeepsFlat() {
 		c.undecided("C04-R9", key, p.relFile(keeps[0].ins.Pos()), "the statement that keeps a node is not inside a loop")
 		return
 	}
-	isFieldOfNode := func(v ssa.Value, name string) bool {
-		ld, ok := v.(*ssa.UnOp)
-		if !ok || ld.Op != token.MUL {
-			return false
+	var mkAssume func(node ssa.Value, depth int) func(ssa.Value) int
+	mkAssume = func(node ssa.Value, depth int) func(ssa.Value) int {
+		isFieldOfNode := func(v ssa.Value, name string) bool {
+			ld, ok := v.(*ssa.UnOp)
+			if !ok || ld.Op != token.MUL {
+				return false
+			}
+			fa, ok := ld.X.(*ssa.FieldAddr)
+			if !ok {
+				return false
+			}
+			T, F := fieldOf(fa.X.Type(), fa.Field)
+			return T == "graph.Node" && F == name && fa.X == node
 		}
-		fa, ok := ld.X.(*ssa.FieldAddr)
-		if !ok {
-			return false
-		}
-		T, F := fieldOf(fa.X.Type(), fa.Field)
-		return T == "graph.Node" && F == name && fa.X == node
-	}
-	assume := func(cond ssa.Value) int {
-		switch x := cond.(type) {
-		case *ssa.BinOp:
-			sign := 0
-			switch x.Op {
-			case token.EQL:
-				sign = -1
-			case token.NEQ:
-				sign = 1
-			default:
-				return 0
-			}
-			for _, pair := range [][2]ssa.Value{{x.X, x.Y}, {x.Y, x.X}} {
-				if pair[0] == node && isNilConst(pair[1]) {
-					return sign // n != nil
+		return func(cond ssa.Value) int {
+			switch x := cond.(type) {
+			case *ssa.BinOp:
+				sign := 0
+				switch x.Op {
+				case token.EQL:
+					sign = -1
+				case token.NEQ:
+					sign = 1
+				default:
+					return 0
 				}
-				if isFieldOfNode(pair[0], "Flat") && isConstInt(pair[1], 0) {
-					return sign // n.Flat != 0
+				for _, pair := range [][2]ssa.Value{{x.X, x.Y}, {x.Y, x.X}} {
+					if pair[0] == node && isNilConst(pair[1]) {
+						return sign // n != nil
+					}
+					if isFieldOfNode(pair[0], "Flat") && isConstInt(pair[1], 0) {
+						return sign // n.Flat != 0
+					}
 				}
-			}
-		case *ssa.Parameter:
-			if bt, ok := x.Type().Underlying().(*types.Basic); ok && bt.Kind() == types.Bool {
-				return -1 // dropNegative is off
-			}
-		case *ssa.UnOp:
-			if x.Op == token.NOT {
-				if pr, ok := x.X.(*ssa.Parameter); ok {
-					if bt, ok := pr.Type().Underlying().(*types.Basic); ok && bt.Kind() == types.Bool {
-						return 1
+			case *ssa.Parameter:
+				if bt, ok := x.Type().Underlying().(*types.Basic); ok && bt.Kind() == types.Bool {
+					return -1 // dropNegative is off
+				}
+			case *ssa.UnOp:
+				if x.Op == token.NOT {
+					if pr, ok := x.X.(*ssa.Parameter); ok {
+						if bt, ok := pr.Type().Underlying().(*types.Basic); ok && bt.Kind() == types.Bool {
+							return 1
+						}
+					}
+				}
+			case *ssa.Call:
+				// a predicate on the node written as a helper: its verdict under the same assumptions
+				if depth > 1 {
+					return 0
+				}
+				h := helperCallee(x.Parent(), x)
+				if h == nil || h.Signature.Results().Len() != 1 || len(h.Params) != len(x.Call.Args) {
+					return 0
+				}
+				if bt, ok := h.Signature.Results().At(0).Type().Underlying().(*types.Basic); !ok || bt.Kind() != types.Bool {
+					return 0
+				}
+				for i, a := range x.Call.Args {
+					if a == node {
+						return boolResultUnder(h, mkAssume(h.Params[i], depth+1))
 					}
 				}
 			}
+			return 0
 		}
-		return 0
 	}
+	assume := mkAssume(node, 0)
 	loop := naturalLoop(hdr)
 	skipped := false
 	seen := map[*ssa.BasicBlock]bool{}
